@@ -3,6 +3,7 @@
 from __future__ import annotations
 
 import itertools
+import warnings
 
 from checks.common import Fails, Report, detuple, np
 from checks import nlpfamily as N
@@ -33,7 +34,70 @@ NSH = 48
 
 
 def shards(tier, seed):
-    return [("E1", i, NSH) for i in range(NSH)] + [("E1LP", i, 8) for i in range(8)] + [("E2", i, 6) for i in range(6)]
+    return ([("E1", i, NSH) for i in range(NSH)] + [("E1LP", i, 8) for i in range(8)] + [("E2", i, 6) for i in range(6)]
+            + [("E3", i, 8) for i in range(8)])
+
+
+def e3_cases():
+    """E3: the SECOND solve of one Problem object whose objective was replaced in between (other variable set of the
+    same size, same set, or another sense) - the constraints stay the user's constraints."""
+    a_, y_, z_, zz = ("var", "a"), ("var", "y"), ("var", "z"), ("var", "zz")
+    sq, add, sub, mul, c = N.sq, N.add, N.sub, N.mul, N.c
+    objs = {
+        "O1(a,y,z)": add(sq(sub(a_, c(1))), sq(add(y_, c(1))), sq(sub(z_, c(2)))),
+        "O2(y,z,zz)": add(sq(add(y_, c(1))), sq(sub(z_, c(2))), sq(sub(zz, c(1)))),
+        "O3(a,y,z)": add(("un", "exp", mul(c(0.3), y_)), sq(add(z_, c(1))), sq(sub(a_, c(2)))),
+        "O4(y,z)": add(sq(add(y_, c(2))), sq(add(z_, c(2)))),
+    }
+    cons = {
+        "y>=2": (("cmp", ">=", y_, c(2)),),
+        "y+z<=1": (("cmp", "<=", add(y_, z_), c(1)),),
+        "y-z==0.5": (("cmp", "==", sub(y_, z_), c(0.5)),),
+        "y^2+z^2<=1": (("cmp", "<=", add(sq(y_), sq(z_)), c(1)),),
+        "y>=2,y+z<=3": (("cmp", ">=", y_, c(2)), ("cmp", "<=", add(y_, z_), c(3))),
+    }
+    attrs = tuple((nm, (("lb", -5), ("ub", 5))) for nm in ("a", "y", "z", "zz"))
+    for (n1, o1), (n2, o2) in itertools.product(objs.items(), repeat=2):
+        for cn, cs in cons.items():
+            for m in ("auto", "SLSQP", "trust-constr", "COBYLA"):
+                for s1, s2 in (("min", "min"),) if n1 != n2 else (("min", "max"), ("max", "min")):
+                    o2s = o2 if s2 == "min" else ("un", "neg", o2)
+                    o1s = o1 if s1 == "min" else ("un", "neg", o1)
+                    yield (n1, s1, n2, s2, cn), PR.prob(s1, o1s, cs, attrs), PR.prob(s2, o2s, cs, attrs), m
+
+
+def check_history(pr1, pr2, method, rep=None, want=None):
+    fails = Fails(want)
+    kw = {} if method == "auto" else {"method": method}
+    try:
+        P, b, _ = PR.build_problem(pr1)
+        with warnings.catch_warnings():
+            warnings.simplefilter("ignore")
+            try:
+                P.solve(**kw)
+            except Exception:
+                pass
+            o = b.build(pr2[2])
+            (P.minimize if pr2[1] == "min" else P.maximize)(o)
+            sol = P.solve(**kw)
+    except Exception as ex:
+        if rep:
+            rep.outcomes["raised:" + type(ex).__name__] += 1
+        return fails
+    if rep:
+        rep.states += 1
+        rep.transitions += 3
+        rep.outcomes["status-after-replacement:" + sol.status.value] += 1
+    if sol.status.value != "optimal":
+        return fails
+    worst, where = feasibility(pr2, sol.values)
+    if rep:
+        rep.evaluations += 1
+        rep.nt((pr1, pr2, method))
+    if worst > tol_for(sol.values):
+        fails.add("optimal-but-infeasible:after-objective-replacement", method=method, violation=worst, where=where,
+                  values=sol.values)
+    return fails
 
 
 def feasibility(pr, values):
@@ -280,6 +344,10 @@ def explore(item, tier, seed):
         for idx, lab, pr, m in _it.chain(F.family("quick"), F.view_family()):
             if idx % (n * (1 if tier == "thorough" else 4)) == i:
                 record(check_real(pr, m, rep), {"mode": "real", "label": lab, "problem": pr, "method": m})
+    elif kind == "E3":
+        for k, (lab, pr1, pr2, m) in enumerate(e3_cases()):
+            if k % n == i:
+                record(check_history(pr1, pr2, m, rep), {"mode": "history", "label": lab, "problem": pr2, "first": pr1, "method": m})
     else:
         k = 0
         for lab, pr, m, script in e2_cases(tier):
@@ -299,6 +367,8 @@ def explore(item, tier, seed):
 
 def culprit(v):
     case = v["case"]
+    if case["mode"] == "history":
+        return {"kind": v["kind"], "method": case["method"], "history": list(case["label"])}
     if case["mode"] == "real":
         lab = case["label"]
         return {"kind": v["kind"], "method": case["method"], "family": lab[:3] if len(lab) == 4 else "lp"}
@@ -309,7 +379,9 @@ def culprit(v):
 def replay(art):
     case = art["violation"]["case"]
     pr = detuple(case["problem"])
-    if case["mode"] == "real":
+    if case["mode"] == "history":
+        fs = check_history(detuple(case["first"]), pr, case["method"], None, want=art["culprit"]["kind"])
+    elif case["mode"] == "real":
         fs = check_real(pr, case["method"], None, want=art["culprit"]["kind"])
     elif case["mode"] == "env":
         fs = check_env(detuple(case["label"]), pr, case["method"], detuple(case["script"]), None, want=art["culprit"]["kind"])
